@@ -424,9 +424,16 @@ def _run(pid, mod, tier, seed, replay, n_override, scratch, t0, violations, know
         def still_fails(cands):
             for i, c in enumerate(cands):
                 c["id"] = i
-            gr = eval_ops(cands, vh, "go", env=GOENV)
             mr = eval_ops(cands, drv, "model") if drv else {}
+            if hasattr(mod, "PREFILTER"):
+                # never send to the real code what the prefilter excludes (unguarded recursion overflows the Go stack)
+                sendable = [c for c in cands if mod.PREFILTER(c, mr.get(c["id"]))]
+            else:
+                sendable = cands
+            gr = eval_ops(sendable, vh, "go", env=GOENV)
             for i, c in enumerate(cands):
+                if i not in gr:
+                    continue
                 st, _ = mod.judge(c, gr.get(i, {}).get("go"), mr.get(i, {}))
                 if st == status0:
                     return i
